@@ -869,6 +869,9 @@ class Engine:
         try:
             if finfo.is_generator:
                 ctx.yielded = []
+            if getattr(self, "semantic_decorators", None) is not None and self.semantic_decorators(finfo):
+                # the function under contract is the *decorated* function (pyvc.ext_expr)
+                raise ReturnSig(self.call_decorated(ctx, finfo, [args[p.arg] for p in all_args], {}))
             self.exec_block(ctx, finfo.node.body, env)
             result = None
             if finfo.is_generator:
@@ -928,6 +931,13 @@ class Engine:
                 matched = xname
                 break
         if matched is None:
+            for xname, cond in contract.raises_if.items():
+                if self.exc_matches(exc, xname):
+                    ns.__dict__["exc"] = exc
+                    c = self.run_spec(ctx, cond, ns)
+                    ctx.oblige("%s/raises#%s" % (short(ctx.func), xname), lift_bool(c), kind="raises",
+                               info={"origin": exc.fields.get("__origin__")})
+                    return
             for xname in contract.may_raise:
                 if self.exc_matches(exc, xname):
                     self._check_raise_post(ctx, contract, ns, exc)
@@ -1743,10 +1753,25 @@ class Engine:
         selfv = args[0] if (finfo.cls is not None and args and not finfo.is_static) else None
         if dynamic:
             finfo = self.resolve_dynamic(ctx, finfo, selfv)
-        contract = self.find_contract(finfo, selfv) if closure is None or closure.env is None else None
+        raw = getattr(closure, "raw", False)  # the undecorated body of a decorated def (pyvc.ext_expr)
+        contract = self.find_contract(finfo, selfv) if (closure is None or closure.env is None) and not raw else None
         inline_ok = finfo.qualname in self.reg.inline
         verifying_self = finfo.qualname == ctx.func.split("[")[0].split("<")[0]
         if contract is not None and not inline_ok:
+            if dynamic and getattr(contract.impl, "dispatch", False) and isinstance(selfv, Obj) and not selfv.exact \
+                    and finfo.cls is not None:
+                # opt-in dynamic dispatch by case split on the receiver's class: every override has its own contract
+                for m in self.overriders(finfo, selfv.cls):
+                    classes = [c for c in m.cls.all_subclasses()
+                               if c.lookup(finfo.name) is m and c.is_subclass_of(selfv.cls)]
+                    if not classes:
+                        continue
+                    if m.qualname not in self.reg.contracts:
+                        raise EngineLimit("dynamic dispatch to %s which has no contract of its own" % m.qualname)
+                    cond = z3.Or(*[self.tag_fn(selfv.ref) == self.class_id(c) for c in classes])
+                    if ctx.decide(cond):
+                        narrowed = Obj(m.cls, False, selfv.ref, None, ctx)
+                        return self.call_function(ctx, m, [narrowed] + list(args[1:]), kwargs)
             return self.apply_contract(ctx, finfo, contract, args, kwargs)
         # no contract: inline (nested defs, lambdas, private helpers, declared-inlinable accessors)
         if finfo.cls is not None and isinstance(selfv, Obj) and not selfv.exact and dynamic:
@@ -1755,8 +1780,11 @@ class Engine:
                 return self.dispatch_inline(ctx, finfo, ov, selfv, args, kwargs)
         nested = closure is not None and closure.env is not None
         private_helper = finfo.cls is not None and finfo.name.startswith("_") and not finfo.name.startswith("__")
+        if not raw and not nested and getattr(self, "semantic_decorators", None) is not None \
+                and self.semantic_decorators(finfo):
+            return self.call_decorated(ctx, finfo, args, kwargs)
         if not (nested or inline_ok or private_helper or finfo.is_property or isinstance(finfo.node, ast.Lambda)
-                or finfo.qualname in self.reg.inline):
+                or finfo.qualname in self.reg.inline or raw):
             raise EngineLimit("call of %s: no contract and not declared inlinable" % finfo.qualname)
         return self.inline_call(ctx, finfo, args, kwargs, closure)
 
@@ -1861,6 +1889,12 @@ class Engine:
             if self.feasible(ctx, c) and ctx.choose(2) == 1:
                 ctx.assume(c)
                 raise PyRaise(ExcVal(self.exc_class(xname)))
+        for xname, cond in contract.raises_if.items():
+            if ctx.choose(2) == 1:
+                exc = ExcVal(self.exc_class(xname))
+                ns.__dict__["exc"] = exc
+                ctx.assume(lift_bool(self.run_spec(ctx, cond, ns)))
+                raise PyRaise(exc)
         for xname in contract.may_raise:
             if ctx.choose(2) == 1:
                 raise PyRaise(ExcVal(self.exc_class(xname)))
